@@ -116,4 +116,217 @@ theorem sorted_adel {β : Type} (k : Nat) (l : List (Nat × β)) (h : Sorted l) 
   unfold Sorted adel at *
   exact List.Pairwise.sublist (List.Sublist.map _ List.filter_sublist) h
 
+/-! ## the invariant -/
+
+/-- The quiescent invariant of the manager (holds between any two RPCs). -/
+structure Inv (s : St) : Prop where
+  ready_fs : s.status = .ready → s.curFs ≠ none ∧ s.lastInit ≠ none
+  fs_cfg : s.curFs ≠ none → s.cfg ≠ none
+  live_iff : ∀ f mp, (f, mp) ∈ s.live ↔ aget mp s.fsMap = some f
+  live_nodup : (s.live.map Prod.snd).Nodup
+  map_lt : ∀ mp f, aget mp s.fsMap = some f → f < s.nextFs
+  cur_lt : ∀ f, s.curFs = some f → f < s.nextFs
+  map_cur : ∀ mp f, aget mp s.fsMap = some f → s.curFs ≠ none
+  sub : s.closed = false → ∀ mp, aget mp s.fsMap ≠ none → aget mp s.store ≠ none
+  sup : s.closed = false → s.lastInit = some .ok → ∀ mp, aget mp s.store ≠ none → aget mp s.fsMap ≠ none
+  sorted : Sorted s.store
+
+theorem inv_init0 : Inv {} := by
+  constructor <;> simp [aget, Sorted]
+
+theorem mountCore_cases (s : St) (mp : Mp) (lab : Lab) (ok : Bool) :
+    (∃ g, aget mp s.fsMap = some g ∧ mountCore s mp lab ok = ⟨s, .ok, []⟩) ∨
+    (aget mp s.fsMap = none ∧ s.curFs = none ∧ mountCore s mp lab ok = ⟨s, .panic, []⟩) ∨
+    (∃ f, aget mp s.fsMap = none ∧ s.curFs = some f ∧ ok = true ∧
+      mountCore s mp lab ok = ⟨s.mounted mp f, .ok, [.mount f mp lab true]⟩) ∨
+    (∃ f, aget mp s.fsMap = none ∧ s.curFs = some f ∧ ok = false ∧
+      mountCore s mp lab ok = ⟨s, .err, [.mount f mp lab false]⟩) := by
+  unfold mountCore
+  cases h1 : aget mp s.fsMap with
+  | some g => simp
+  | none =>
+    cases h2 : s.curFs with
+    | none => simp
+    | some f => cases ok <;> simp
+
+theorem inv_mounted (s : St) (mp : Mp) (f : FsId) (h : Inv s) (hn : aget mp s.fsMap = none)
+    (hc : s.curFs = some f) (hs : s.closed = false → aget mp s.store ≠ none) : Inv (s.mounted mp f) := by
+  have hl := h.live_iff
+  constructor
+  · exact h.ready_fs
+  · exact h.fs_cfg
+  · intro g m
+    simp only [St.mounted, aget_ains, List.mem_cons, Prod.mk.injEq]
+    have := hl g m
+    grind
+  · simp only [St.mounted, List.map_cons, List.nodup_cons]
+    refine ⟨?_, h.live_nodup⟩
+    intro hm
+    obtain ⟨⟨g, m⟩, hgm, rfl⟩ := List.mem_map.mp hm
+    have := (hl g m).mp hgm
+    simp_all
+  · intro m g
+    simp only [St.mounted, aget_ains]
+    have := h.map_lt m g
+    have := h.cur_lt f hc
+    grind
+  · exact h.cur_lt
+  · intro m g _
+    simp [St.mounted, hc]
+  · intro hcl m
+    simp only [St.mounted, aget_ains]
+    have := h.sub hcl m
+    have := hs hcl
+    grind
+  · intro hcl hli m
+    simp only [St.mounted, aget_ains]
+    have := h.sup hcl hli m
+    grind
+  · exact h.sorted
+
+/-- Fields `restore` never touches. -/
+def SameBut (s t : St) : Prop :=
+  t.status = s.status ∧ t.curFs = s.curFs ∧ t.cfg = s.cfg ∧ t.store = s.store ∧ t.closed = s.closed ∧
+  t.nextFs = s.nextFs ∧ t.fsCfg = s.fsCfg ∧ t.lastInit = s.lastInit
+
+/-- Everything the theorems need to know about `restoreFuseInfo`. -/
+structure RestoreSpec (f : FsId) (es : List (Mp × Rec)) (s : St) (o : Out) : Prop where
+  frame : SameBut s o.st
+  inv : Inv o.st
+  mono : ∀ mp g, aget mp s.fsMap = some g → aget mp o.st.fsMap = some g
+  fresh : ∀ mp g, aget mp o.st.fsMap = some g → aget mp s.fsMap = some g ∨
+    (aget mp s.fsMap = none ∧ g = f ∧ ∃ r, aget mp es = some r ∧ Call.mount f mp r.labels true ∈ o.calls)
+  calls : ∀ c ∈ o.calls, ∃ mp lab ok, c = Call.mount f mp lab ok ∧ aget mp s.fsMap = none ∧
+    aget mp es ≠ none
+  nopanic : o.resp ≠ .panic
+  onerr : o.resp = .err → ∃ mp lab, Call.mount f mp lab false ∈ o.calls
+  onok : o.resp = .ok → ∀ mp r, aget mp es = some r →
+    aget mp o.st.fsMap ≠ none ∧
+    (aget mp s.fsMap = none → Call.mount f mp r.labels true ∈ o.calls ∧ aget mp o.st.fsMap = some f)
+
+theorem restore_spec (failMp : Mp → Bool) (f : FsId) (es : List (Mp × Rec)) :
+    ∀ s : St, Inv s → s.curFs = some f →
+      (∀ mp r, aget mp es = some r → s.closed = false → aget mp s.store ≠ none) →
+      RestoreSpec f es s (restore failMp es s) := by
+  induction es with
+  | nil =>
+    intro s h hc _
+    simp only [restore]
+    exact ⟨⟨rfl, rfl, rfl, rfl, rfl, rfl, rfl, rfl⟩, h, fun _ _ h => h, fun _ _ h => Or.inl h,
+      by simp, by simp, by simp, by simp [aget]⟩
+  | cons e rest ih =>
+    obtain ⟨mp, r⟩ := e
+    intro s h hc hes
+    have hes' : ∀ m r', m ≠ mp → aget m rest = some r' → s.closed = false → aget m s.store ≠ none := by
+      intro m r' hne hm
+      exact hes m r' (by simp [aget, Ne.symm hne, hm])
+    simp only [restore]
+    rcases mountCore_cases s mp r.labels (!failMp mp) with
+      ⟨g, hg, heq⟩ | ⟨_, hcn, _⟩ | ⟨f', hn, hc', hok, heq⟩ | ⟨f', hn, hc', hok, heq⟩
+    · -- already in fsMap: skipped
+      rw [heq]
+      simp only
+      have hes2 : ∀ m r', aget m rest = some r' → s.closed = false → aget m s.store ≠ none := by
+        intro m r' hm
+        by_cases hne : m = mp
+        · subst hne; exact hes m r (by simp [aget])
+        · exact hes' m r' hne hm
+      have I := ih s h hc hes2
+      refine ⟨I.frame, I.inv, I.mono, ?_, ?_, I.nopanic, ?_, ?_⟩
+      · intro m g' hm
+        rcases I.fresh m g' hm with h1 | ⟨h1, h2, r', h3, h4⟩
+        · exact Or.inl h1
+        · refine Or.inr ⟨h1, h2, r', ?_, by simpa using h4⟩
+          have : mp ≠ m := by intro e; subst e; simp [hg] at h1
+          simp [aget, this, h3]
+      · intro c hcm
+        obtain ⟨m, lab, ok, h1, h2, h3⟩ := I.calls c (by simpa using hcm)
+        refine ⟨m, lab, ok, h1, h2, ?_⟩
+        simp only [aget]; split <;> simp [h3]
+      · intro he
+        obtain ⟨m, lab, hm⟩ := I.onerr he
+        exact ⟨m, lab, by simpa using hm⟩
+      · intro hok m r' hm
+        simp only [aget] at hm
+        split at hm
+        · rename_i hmm; subst hmm
+          refine ⟨by rw [I.mono _ _ hg]; simp, ?_⟩
+          intro hnn; simp [hg] at hnn
+        · have := I.onok hok m r' hm
+          exact ⟨this.1, fun hnn => by simpa using this.2 hnn⟩
+    · simp [hc] at hcn
+    · -- mounted on the current filesystem
+      rw [heq]
+      simp only
+      have hff : f' = f := by rw [hc] at hc'; exact (Option.some.inj hc').symm
+      subst hff
+      have hstore : s.closed = false → aget mp s.store ≠ none := hes mp r (by simp [aget])
+      have h1 : Inv (s.mounted mp f') := inv_mounted s mp f' h hn hc hstore
+      have hes2 : ∀ m r', aget m rest = some r' → (s.mounted mp f').closed = false →
+          aget m (s.mounted mp f').store ≠ none := by
+        intro m r' hm
+        by_cases hne : m = mp
+        · subst hne; exact hes m r (by simp [aget])
+        · exact hes' m r' hne hm
+      have I := ih (s.mounted mp f') h1 hc hes2
+      obtain ⟨F1, F2, F3, F4, F5, F6, F7, F8⟩ := I.frame
+      refine ⟨⟨F1, F2, F3, F4, F5, F6, F7, F8⟩, I.inv, ?_, ?_, ?_, I.nopanic, ?_, ?_⟩
+      · intro m g hm
+        apply I.mono
+        simp only [St.mounted, aget_ains]
+        have : m ≠ mp := by intro e; subst e; simp [hn] at hm
+        simp [this, hm]
+      · intro m g hm
+        rcases I.fresh m g hm with h2 | ⟨h2, h3, r', h4, h5⟩
+        · simp only [St.mounted, aget_ains] at h2
+          split at h2
+          · rename_i hmm; subst hmm
+            refine Or.inr ⟨hn, (Option.some.inj h2).symm, r, by simp [aget], by simp⟩
+          · exact Or.inl h2
+        · simp only [St.mounted, aget_ains] at h2
+          split at h2
+          · simp at h2
+          · rename_i hne
+            refine Or.inr ⟨h2, h3, r', by simp [aget, Ne.symm hne, h4], by simp [h5]⟩
+      · intro c hcm
+        simp only [List.cons_append, List.nil_append, List.mem_cons] at hcm
+        rcases hcm with hcm | hcm
+        · exact ⟨mp, r.labels, true, hcm, hn, by simp [aget]⟩
+        · obtain ⟨m, lab, ok, h2, h3, h4⟩ := I.calls c hcm
+          simp only [St.mounted, aget_ains] at h3
+          split at h3
+          · simp at h3
+          · refine ⟨m, lab, ok, h2, h3, ?_⟩
+            simp only [aget]; split <;> simp [h4]
+      · intro he
+        obtain ⟨m, lab, hm⟩ := I.onerr he
+        exact ⟨m, lab, by simp [hm]⟩
+      · intro hok' m r' hm
+        simp only [aget] at hm
+        split at hm
+        · rename_i hmm; subst hmm
+          have hr : r' = r := (Option.some.inj hm).symm
+          subst hr
+          have : aget mp (restore failMp rest (s.mounted mp f')).st.fsMap = some f' :=
+            I.mono mp f' (by simp [St.mounted, aget_ains])
+          exact ⟨by simp [this], fun _ => ⟨by simp, this⟩⟩
+        · rename_i hne
+          have := I.onok hok' m r' hm
+          refine ⟨this.1, fun hnn => ?_⟩
+          have h2 : aget m (s.mounted mp f').fsMap = none := by
+            simp [St.mounted, aget_ains, Ne.symm hne, hnn]
+          have := this.2 h2
+          exact ⟨by simp [this.1], this.2⟩
+    · -- fs.Mount failed: restore stops here
+      rw [heq]
+      simp only
+      have hff : f' = f := by rw [hc] at hc'; exact (Option.some.inj hc').symm
+      subst hff
+      refine ⟨⟨rfl, rfl, rfl, rfl, rfl, rfl, rfl, rfl⟩, h, fun _ _ h => h, fun _ _ h => Or.inl h,
+        ?_, by simp, ?_, by simp⟩
+      · intro c hcm
+        simp only [List.mem_singleton] at hcm
+        exact ⟨mp, r.labels, false, hcm, hn, by simp [aget]⟩
+      · intro _; exact ⟨mp, r.labels, by simp⟩
+
 end SV.FuseMgr
